@@ -21,9 +21,11 @@ _CHECKED = {'AddWithOverflow': 'Add', 'SubWithOverflow': 'Sub', 'MulWithOverflow
 
 
 class ExprBuilder:
-    def __init__(self, body, through_vars=True, max_depth=60):
+    def __init__(self, body, through_vars=True, max_depth=60, through_mut_borrow=False):
         self.b = body
         self.through_vars = through_vars
+        self.through_mut_borrow = through_mut_borrow
+        self._phi_stack = set()
         self.max_depth = max_depth
         self._defs = {}
         for l in range(len(body.locals)):
@@ -49,7 +51,7 @@ class ExprBuilder:
     # ------------------------------------------------------------------
     def single_def(self, local):
         ds = self._defs.get(local, [])
-        if len(ds) == 1 and not ds[0][3] and local not in self._mut_borrowed:
+        if len(ds) == 1 and not ds[0][3] and (local not in self._mut_borrowed or self.through_mut_borrow):
             return ds[0]
         return None
 
@@ -63,6 +65,22 @@ class ExprBuilder:
         if depth > self.max_depth:
             return ('var', local, name or '_%d' % local)
         d = self.single_def(local)
+        if d is None and name is None and local not in self._mut_borrowed and local not in self._phi_stack:
+            ds = [x for x in self._defs.get(local, []) if not x[3]]
+            if 2 <= len(ds) <= 4 and len(ds) == len(self._defs.get(local, [])):
+                # compiler temporary assigned on several branches: the set of its definitions
+                self._phi_stack.add(local)
+                try:
+                    alts = []
+                    for bb, idx, node, _ in ds:
+                        if idx == 'term':
+                            alts.append(('call', node.callee.name or repr(node.callee),
+                                         tuple(self.operand(a, depth + 1) for a in node.args), bb))
+                        else:
+                            alts.append(self.rvalue(node.rv, depth + 1))
+                finally:
+                    self._phi_stack.discard(local)
+                return ('phi', tuple(sorted(alts, key=repr)))
         if d is None or (name is not None and not self.through_vars):
             return ('var', local, name or '_%d' % local)
         bb, idx, node, _ = d
@@ -220,6 +238,14 @@ def show(e):
         return '%s(%s)' % (e[1], ', '.join(show(a) for a in e[2]))
     if k == 'str':
         return repr(e[1])
+    if k == 'phi':
+        return 'phi{%s}' % ' | '.join(show(a) for a in e[1])
+    if k == 'promoted':
+        return 'promoted#%s' % e[2]
+    if k == 'zst':
+        return '<%s>' % e[1]
+    if k == 'fn':
+        return 'fn:%s' % e[1]
     return '<%s>' % (k,)
 
 
